@@ -144,7 +144,7 @@ func init() {
 				if !ok {
 					continue
 				}
-				for _, path := range []string{"cache", "store", "hfp", "post", "head-first"} {
+				for _, path := range []string{"cache", "store", "hfp", "post", "head-first", "refresh"} {
 					for ci, ae := range clients {
 						if !c.Thorough() && path != "cache" && (ci == 4 || ci >= 6) {
 							continue // quick: 5 representative clients on the non-hit paths
@@ -160,9 +160,39 @@ func init() {
 						freshCaches(scfg)
 						vtime.Set(vtime.Base)
 						oo := o
-						oo.Cache = path == "cache" || path == "store" || path == "head-first"
+						oo.Cache = path == "cache" || path == "store" || path == "head-first" || path == "refresh"
 						oresp, _ = oo.resp()
 						e.Respond = func(oc *env.OriginCall) env.OriginResp { return oresp }
+						if path == "refresh" {
+							// generation 1 = other bytes of the same length under the same validator; generation 2 = the body judged
+							old := oo
+							old.Body = append([]byte(nil), oo.Body...)
+							for i, j := 0, len(old.Body)-1; i < j; i, j = i+1, j-1 {
+								old.Body[i], old.Body[j] = old.Body[j], old.Body[i]
+							}
+							if len(old.Body) > 0 {
+								old.Body[0] ^= 0x20
+							}
+							old.Extra = http.Header{"Etag": {`"same"`}}
+							for k, v := range oo.Extra {
+								old.Extra[k] = v
+							}
+							oo.Extra = old.Extra
+							oldResp, ok1 := old.resp()
+							newResp, ok2 := oo.resp()
+							if !ok1 || !ok2 {
+								continue
+							}
+							oresp = newResp
+							calls := 0
+							e.Respond = func(oc *env.OriginCall) env.OriginResp {
+								calls++
+								if calls == 1 {
+									return oldResp
+								}
+								return newResp
+							}
+						}
 						e.Events()
 						hdr := func(a string) http.Header {
 							if a == "" {
@@ -185,6 +215,11 @@ func init() {
 							steps = append(steps, step{"GET", clients[(ci+1)%len(clients)], "fetching request"}, step{"restart", "", ""}, step{"GET", ae, "hit restored from store"}, step{"GET", clients[(ci+2)%len(clients)], "hit after restore"})
 						case "head-first":
 							steps = append(steps, step{"HEAD", ae, "HEAD fetching request"}, step{"HEAD", ae, "HEAD hit"}, step{"GET", ae, "GET after HEAD"}, step{"GET", clients[(ci+1)%len(clients)], "GET hit after HEAD"}, step{"HEAD", ae, "HEAD after GET"})
+						case "refresh":
+							steps = append(steps, step{"GET", ae, "first generation"}, step{"expire", "", ""}, step{"GET", ae, "refetch after expiry (same ETag, new bytes)"})
+							for _, a2 := range clients {
+								steps = append(steps, step{"GET", a2, "hit on the refreshed entry"})
+							}
 						case "hfp":
 							steps = append(steps, step{"GET", ae, "fetching request (uncacheable)"}, step{"GET", ae, "hit-for-pass"})
 						case "post":
@@ -195,8 +230,15 @@ func init() {
 								freshCaches(scfg)
 								continue
 							}
+							if sp.m == "expire" {
+								vtime.Add(601)
+								continue
+							}
 							r := e.Do(env.Req{Method: sp.m, URI: "/o", Rid: "r", Header: hdr(sp.ae)})
 							st.Execs++
+							if sp.what == "first generation" {
+								continue // (judged on every other path)
+							}
 							if sig, msg := c05Judge(oo, sp.ae, r, oresp.Header); sig != "" {
 								c.Violation(scn, sig, fmt.Sprintf("origin %s/%s/%dB/%d, %s (%s, client Accept-Encoding %q, label %s): %s", o.Enc, o.CT, len(o.Body), o.Status, sp.what, path, sp.ae, r.XStatus, msg), nil, map[string]interface{}{"origin_index": oi, "path": path, "accept": sp.ae, "step": sp.what}, nil)
 							}
